@@ -50,6 +50,7 @@ P0 == [cfg    |-> [seq |-> FALSE, delay |-> 0, retry |-> FALSE, rc |-> FALSE],
        pmax   |-> <<>>,    \* key -> latest possible deadline, if it was removed AGAIN while pending
        failed |-> {},      \* keys whose routine has failed (see above)
        fuzzy  |-> {},      \* keys about which nothing is judged
+       deadctx |-> {},     \* contexts the application has cancelled itself (event "ctxcancel")
        refs   |-> <<>>,    \* unreleased reference id -> key
        newTok |-> <<>>,    \* key -> token of the constructor call made during the current API call
        \* ---- C07
@@ -170,7 +171,10 @@ Cfg(s, seq, delay, retry, rc) == Cfg5(s, seq, delay, retry, rc, FALSE)
 
 \* the harness-owned constructor was called for key k and returned data token tok
 Ctor(s, k, tok) ==
-    [s EXCEPT !.newTok = Put(@, k, tok), !.tokEp = Put(@, tok, [k |-> k, ep |-> Ep(s, k)]), !.fresh = @ \cup {k}]
+    [s EXCEPT !.newTok = Put(@, k, tok), !.tokEp = Put(@, tok, [k |-> k, ep |-> Ep(s, k)]),
+              \* (once a context has been cancelled in place a start may fail without entering the routine and
+              \* consume a backoff interval unseen: no key counts as fresh any more)
+              !.fresh = IF s.deadctx = {} THEN @ \cup {k} ELSE @]
 
 \* keys on which the call restarts a failed routine (the retry obligation is dropped)
 Restarts(e) ==
@@ -236,8 +240,15 @@ Leave(s, i, out, dead) ==
                    ELSE s1
              \* -1: deadline = next quiescent point + BackoffUnit; -2: + BackoffMax (see Cfg5)
              s3 == IF fail THEN [s2 EXCEPT !.fresh = @ \ {k}] ELSE s2
-         IN IF fail /\ s.cfg.retry /\ cur /\ s.pctx # 0
+         IN IF fail /\ s.cfg.retry /\ cur /\ s.pctx # 0 /\ s.pctx \notin s.deadctx
             THEN [s3 EXCEPT !.retry = Put(@, k, IF s.boexp /\ k \notin s.fresh THEN -2 ELSE -1)] ELSE s3
+
+\* The application cancels context c itself.  The container keeps c if it is its context, but a re-run
+\* under a context that has ended never enters the routine function: retries owed under it cannot be
+\* observed any more and are not demanded.
+CtxCancel(s, c) ==
+    IF s.off THEN s
+    ELSE [s EXCEPT !.deadctx = @ \cup {c}, !.retry = IF c = s.pctx THEN <<>> ELSE @, !.fresh = {}]
 
 Tick(s, d) ==
     LET t == s.now + d
